@@ -6,6 +6,7 @@ from ..common import core
 from . import frontend
 
 SAN = ["-fsanitize=address,undefined", "-fno-sanitize-recover=undefined", "-fno-omit-frame-pointer", "-g", "-O0", "-w"]
+MSAN = ["-fsanitize=memory", "-fno-omit-frame-pointer", "-g", "-O0", "-w"]
 
 
 def run_harness(source, cflags=(), argv=(), timeout=60, stdin=None, ubsan_halt=True):
@@ -41,8 +42,9 @@ def run_harness(source, cflags=(), argv=(), timeout=60, stdin=None, ubsan_halt=T
 class Harness:
     """compile once, run many times:  with Harness(source, flags) as h:  h.run(argv)"""
 
-    def __init__(self, source, cflags=()):
+    def __init__(self, source, cflags=(), san=None):
         self.source, self.cflags = source, list(cflags)
+        self.san = SAN if san is None else list(san)
         self.dir = None
         self.build = None
 
@@ -52,7 +54,7 @@ class Harness:
         with open(src, "w") as f:
             f.write(self.source)
         self.exe = os.path.join(self.dir, "harness")
-        cmd = ["clang"] + SAN + self.cflags + [src, "-o", self.exe]
+        cmd = ["clang"] + self.san + self.cflags + [src, "-o", self.exe]
         self.cmd = " ".join(cmd).replace(self.dir, "<tmp>")
         b = subprocess.run(cmd, capture_output=True, text=True, timeout=300)
         self.build = None if b.returncode == 0 else b.stderr[-3000:]
@@ -71,9 +73,12 @@ class Harness:
         except subprocess.TimeoutExpired:
             return {"rc": "timeout", "stdout": "", "stderr": "", "sanitizer": None, "cmd": self.cmd}
         san = None
-        m = re.search(r"(AddressSanitizer: [^\n]*|runtime error: [^\n]*)", r.stderr)
+        m = re.search(r"(AddressSanitizer: [^\n]*|MemorySanitizer: [^\n]*|runtime error: [^\n]*)", r.stderr)
         if m:
             san = m.group(1).replace(self.dir, "<tmp>")
+            loc = re.search(r"#\d+ 0x[0-9a-f]+ in (\w+) ([^\s]+:\d+)", r.stderr)
+            if loc:
+                san += " [in %s %s]" % (loc.group(1), loc.group(2).replace(self.dir, "<tmp>"))
         return {"rc": r.returncode, "stdout": r.stdout, "stderr": r.stderr[-3000:].replace(self.dir, "<tmp>"), "sanitizer": san,
                 "cmd": self.cmd}
 
